@@ -36,6 +36,26 @@ def _model_match(P, s, pos, endpos):
         Space.cur = None
 
 
+def _model_finditer(P, s, pos, endpos):
+    from .core import Space, SSeq, SInt
+
+    sp = Space(5000)
+    Space.cur = sp
+    try:
+        out = []
+        for m in P.finditer(SSeq.const(s), pos, endpos):
+            a, b = m.span(0)
+            vals = []
+            for x in (a, b):
+                if isinstance(x, SInt):
+                    x = sp.get_model().eval(x.e, model_completion=True).as_long()
+                vals.append(x)
+            out.append(tuple(vals))
+        return out
+    finally:
+        Space.cur = None
+
+
 def validate_regex(patterns, rng, per_pattern=25, exhaustive_len=4):
     from .models.re_model import SymPattern
 
@@ -67,6 +87,15 @@ def validate_regex(patterns, rng, per_pattern=25, exhaustive_len=4):
             for ln in range(1, exhaustive_len + 1):
                 for tup in itertools.product("ACGT", repeat=ln):
                     cases.append(("".join(tup), 0, ln))
+        for data, i, endpos in cases[:6]:
+            # the scanner (finditer): successive non-overlapping matches
+            exp_it = [mm.span() for mm in R.finditer(data, i, endpos)]
+            got_it = _model_finditer(P, data, i, endpos)
+            n += 1
+            if got_it != exp_it:
+                bad.append(dict(pattern=pat, data=data, pos=i, endpos=endpos, real_finditer=exp_it, model_finditer=got_it))
+                if len(bad) > 3:
+                    return n, bad
         for data, i, endpos in cases:
             real = R.match(data, i, endpos)
             exp = None if real is None else {g: real.span(g) for g in range(P.groups + 1)}
